@@ -29,7 +29,9 @@
  *   @vdip: pointer to vnadata_internal_t structure
  *
  * Note: If a conversion is done, the simple vector is copied to all
- *       frequency rows, preserving the values.
+ *       current frequency rows, preserving the values.  Allocated rows
+ *       beyond the current number of frequencies keep the initial value
+ *       (see the invariant in vnadata_resize).
  */
 int _vnadata_convert_to_fz0(vnadata_internal_t *vdip)
 {
@@ -57,7 +59,9 @@ int _vnadata_convert_to_fz0(vnadata_internal_t *vdip)
 			return -1;
 		    }
 		    for (int port = 0; port < vdip->vdi_p_allocation; ++port) {
-			clfpp[findex][port] = vdip->vdi_z0_vector[port];
+			clfpp[findex][port] =
+			    findex < vdip->vdi_vd.vd_frequencies ?
+			    vdip->vdi_z0_vector[port] : VNADATA_DEFAULT_Z0;
 		    }
 		}
 	    }
